@@ -14,6 +14,10 @@
 #include <stdlib.h>
 #include "vnd.h"
 #include "sqlite_env.h"
+#ifdef SENV_COLSTORE
+#include "sql_colmap_gen.h"
+#endif
+struct senv_binding senv_row[32]; int senv_row_valid;
 
 static int rc_fail(void) { int r = vnd_int(); V_ASSUME(r == SQLITE_ERROR || r == SQLITE_BUSY || r == SQLITE_NOMEM || r == SQLITE_CONSTRAINT || r == SQLITE_FULL || r == SQLITE_IOERR); return r; }
 /* optional refinements a harness may install for particular statements (return -1 / 0 to fall back to the default) */
@@ -85,11 +89,16 @@ int sqlite3_prepare_v2(sqlite3 *db, const char *sql, int n, sqlite3_stmt **st, c
     s = (sqlite3_stmt *) malloc(sizeof *s); V_MALLOC_OK(s);
     s->db = db; s->sql = sql; s->modifying = (strncmp(sql, "select", 6) != 0); s->state = SENV_READY; s->rows = 0; s->last_rc = 0; s->last_rc_hard = 0;
     for (i = 0; i < SENV_MAXBIND; i++) { s->bound[i] = 0; s->dtor[i] = 0; s->bound_set[i] = 0; s->ival[i] = 0; }
+    s->cm = -1;
+#ifdef SENV_COLSTORE
+    { int k; for (k = 0; k < NCOLMAPS; k++) if (strcmp(sql, COLMAPS[k].sql) == 0) s->cm = k; }
+#endif
+    for (i = 0; i < SENV_MAXBIND; i++) { s->pv[i].type = 0; s->pv[i].p = 0; s->pv[i].i = 0; s->pv[i].len = 0; }
     db->nstmt++; *st = s; return SQLITE_OK;
 }
 static void unbind(sqlite3_stmt *s, int i) {
     if (s->bound[i] && s->dtor[i] && s->dtor[i] != SQLITE_STATIC && s->dtor[i] != SQLITE_TRANSIENT) s->dtor[i]((void *) s->bound[i]);
-    s->bound[i] = 0; s->dtor[i] = 0; s->bound_set[i] = 0;
+    s->bound[i] = 0; s->dtor[i] = 0; s->bound_set[i] = 0; s->pv[i].type = 0; s->pv[i].p = 0;
 }
 int sqlite3_finalize(sqlite3_stmt *s) {
     int i;
@@ -108,13 +117,13 @@ static int bind_common(sqlite3_stmt *s, int i, const void *p, void (*d)(void *))
     if (may_fail()) { if (p && d && d != SQLITE_STATIC && d != SQLITE_TRANSIENT) d((void *) p); return SQLITE_NOMEM; }
     s->bound[i] = p; s->dtor[i] = d; s->bound_set[i] = 1; return SQLITE_OK;
 }
-int sqlite3_bind_int64(sqlite3_stmt *s, int i, sqlite3_int64 v) { int r = bind_common(s, i, 0, 0); if (r == SQLITE_OK && i < SENV_MAXBIND) s->ival[i] = v; return r; }
+int sqlite3_bind_int64(sqlite3_stmt *s, int i, sqlite3_int64 v) { int r = bind_common(s, i, 0, 0); if (r == SQLITE_OK && i < SENV_MAXBIND) { s->ival[i] = v; s->pv[i].type = 1; s->pv[i].i = v; } return r; }
 int sqlite3_bind_int(sqlite3_stmt *s, int i, int v) { return sqlite3_bind_int64(s, i, v); }
-int sqlite3_bind_double(sqlite3_stmt *s, int i, double v) { return bind_common(s, i, 0, 0); }
+int sqlite3_bind_double(sqlite3_stmt *s, int i, double v) { int r = bind_common(s, i, 0, 0); if (r == SQLITE_OK) { s->pv[i].type = 4; s->pv[i].d = v; } return r; }
 int sqlite3_bind_null(sqlite3_stmt *s, int i) { return bind_common(s, i, 0, 0); }
-int sqlite3_bind_text16(sqlite3_stmt *s, int i, const void *t, int n, void (*d)(void *)) { return bind_common(s, i, t, d); }
-int sqlite3_bind_text(sqlite3_stmt *s, int i, const char *t, int n, void (*d)(void *)) { return bind_common(s, i, t, d); }
-int sqlite3_bind_blob(sqlite3_stmt *s, int i, const void *t, int n, void (*d)(void *)) { return bind_common(s, i, t, d); }
+int sqlite3_bind_text16(sqlite3_stmt *s, int i, const void *t, int n, void (*d)(void *)) { int r = bind_common(s, i, t, d); if (r == SQLITE_OK) { s->pv[i].type = t ? 2 : 0; s->pv[i].p = t; } return r; }
+int sqlite3_bind_text(sqlite3_stmt *s, int i, const char *t, int n, void (*d)(void *)) { int r = bind_common(s, i, t, d); if (r == SQLITE_OK) { s->pv[i].type = t ? 3 : 0; s->pv[i].p = t; } return r; }
+int sqlite3_bind_blob(sqlite3_stmt *s, int i, const void *t, int n, void (*d)(void *)) { int r = bind_common(s, i, t, d); if (r == SQLITE_OK) { s->pv[i].type = t ? 5 : 0; s->pv[i].p = t; s->pv[i].len = n; } return r; }
 int sqlite3_step(sqlite3_stmt *s) {
     int r, i;
     /* SQLITE_STATIC bindings must still be alive now: touch them (a freed buffer is a CBMC / ASan failure) */
@@ -131,16 +140,29 @@ int sqlite3_step(sqlite3_stmt *s) {
     if (r == SQLITE_DONE && s->modifying) {
         int ch = (senv_benign || senv_fail_mode || strncmp(s->sql, "insert", 6) == 0) ? 1 : vnd_bool();
         s->db->last_changes = ch;
+#ifdef SENV_COLSTORE
+        if (s->cm >= 0) { int k; for (k = 1; k <= COLMAPS[s->cm].nparam && k < SENV_MAXBIND; k++) { int c = COLMAPS[s->cm].pcol[k]; if (c) senv_row[c] = s->pv[k]; } senv_row_valid = 1; }
+#endif
         if (ch) { if (s->db->level == 0) s->db->committed++; else s->db->frames[s->db->level].dirty++; s->db->mods++; }   /* zero rows changed = no modification */
     }
     return r;
 }
 /* result columns: arbitrary values of the requested type; text = NULL or a short symbolic string owned by the stub */
 static UChar coltext[SENV_MAXCOL][SENV_TEXTLEN + 1]; static int colnull[SENV_MAXCOL]; static int hooked, hookbytes;
-int sqlite3_column_int(sqlite3_stmt *s, int c) { int v; if (senv_int_hook && senv_int_hook(s, c, &v)) return v; v = vnd_int(); if (s->state != SENV_ROW) s->db->misuse = 1; V_ASSUME(v >= 0 && v <= 5); return v; }
+#ifdef SENV_COLSTORE
+static struct senv_binding *rowcol(sqlite3_stmt *s, int c) { if (s->cm < 0 || c < 0 || c >= COLMAPS[s->cm].nres || !senv_row_valid) return 0; return &senv_row[COLMAPS[s->cm].rcol[c]]; }
+#endif
+int sqlite3_column_int(sqlite3_stmt *s, int c) { int v;
+#ifdef SENV_COLSTORE
+    { struct senv_binding *b = rowcol(s, c); if (b && COLMAPS[s->cm].rcol[c] >= COL_KIND && COLMAPS[s->cm].rcol[c] <= COL_SCALE) return (b->type == 1) ? (int) b->i : 0; }
+#endif
+ if (senv_int_hook && senv_int_hook(s, c, &v)) return v; v = vnd_int(); if (s->state != SENV_ROW) s->db->misuse = 1; V_ASSUME(v >= 0 && v <= 5); return v; }
 sqlite3_int64 sqlite3_column_int64(sqlite3_stmt *s, int c) { sqlite3_int64 v = vnd_ll(); if (s->state != SENV_ROW) s->db->misuse = 1; V_ASSUME(v >= 1 && v <= 1000); return v; }
 const void *sqlite3_column_text16(sqlite3_stmt *s, int c) {
     int i;
+#ifdef SENV_COLSTORE
+    { struct senv_binding *b = rowcol(s, c); if (b && COLMAPS[s->cm].rcol[c] >= COL_KIND && COLMAPS[s->cm].rcol[c] <= COL_SCALE) { const UChar *t = (b->type == 2) ? (const UChar *) b->p : 0; int n = 0; if (t) while (t[n]) n++; hooked = 1; hookbytes = 2 * n; return t; } }
+#endif
     if (senv_text16_hook) { int nb = -1; const void *t = senv_text16_hook(s, c, &nb); if (nb >= 0) { hookbytes = nb; hooked = 1; return t; } }
     hooked = 0;
     if (s->state != SENV_ROW) s->db->misuse = 1;
@@ -152,7 +174,11 @@ const void *sqlite3_column_text16(sqlite3_stmt *s, int c) {
     return coltext[c];
 }
 int sqlite3_column_bytes16(sqlite3_stmt *s, int c) { if (hooked) return hookbytes; return (c >= 0 && c < SENV_MAXCOL && !colnull[c]) ? SENV_TEXTLEN * 2 : 0; }
-const unsigned char *sqlite3_column_text(sqlite3_stmt *s, int c) { return (const unsigned char *) sqlite3_column_text16(s, c); }
+const unsigned char *sqlite3_column_text(sqlite3_stmt *s, int c) {
+#ifdef SENV_COLSTORE
+    { struct senv_binding *b = rowcol(s, c); if (b && COLMAPS[s->cm].rcol[c] >= COL_KIND && COLMAPS[s->cm].rcol[c] <= COL_SCALE) { const char *t = (b->type == 3) ? (const char *) b->p : 0; int n = 0; if (t) while (t[n]) n++; hooked = 1; hookbytes = n; return (const unsigned char *) t; } }
+#endif
+    return (const unsigned char *) sqlite3_column_text16(s, c); }
 int sqlite3_column_bytes(sqlite3_stmt *s, int c) { return sqlite3_column_bytes16(s, c); }
 const void *sqlite3_column_blob(sqlite3_stmt *s, int c) { return 0; }
 double sqlite3_column_double(sqlite3_stmt *s, int c) { return 0.0; }
